@@ -55,6 +55,10 @@ impl Out {
             writeln!(self.w, "X {} KNOWN {} {} #{}{}", self.prop, key, msg(), TAG, self.case).unwrap();
         }
     }
+    /// in a single-case replay (`--only`), record the merge tree of the case so that it can be minimised
+    pub fn tree_comment(&mut self, ty: &str, enc: &dyn Fn() -> String, n: usize) {
+        if self.active && self.only.is_some() && n <= 5000 { let e = enc(); writeln!(self.w, "# tree {} {}", ty, e).unwrap(); }
+    }
     pub fn comment(&mut self, s: &str) { if self.active { writeln!(self.w, "# {}", s).unwrap(); } }
     pub fn finish(mut self) {
         writeln!(self.w, "X {} TALLY ok={} fail={} cases={}", self.prop, self.x_ok, self.x_fail, self.case).unwrap();
